@@ -88,6 +88,7 @@ pub trait GraphLike {
         unimplemented!()
     }
     fn pack(&mut self, force: bool) {}
+    fn mul_scalar_factor(&mut self, e: u32, s: i64) {}
     /// control (C09 R-TABLE-accessor): the row setter writes the qubit field
     fn set_row(&mut self, v: V, row: f64) {
         self.vertex_data_mut(v).qubit = row;
